@@ -42,8 +42,7 @@ META = {
             "walker (reachable objects, sizes from object headers), the harness JSON writer. The "
             "model abstracts objects to line ranges; the wrap for MAX = 127 itself is exercised only "
             "by the real runs (no inductive proof for MAX = 127 is attempted). NonMoving objects are "
-            "not used under ConcurrentImmix (recorded defect of the snapshot, C01) and carry no "
-            "reference fields (a separate defect of the generational plans, reported to C05/C01).",
+            "not used under ConcurrentImmix (recorded defect of the snapshot, C01).",
     "technique": "TLA+ spec (ImmixLines.tla) model-checked with TLC incl. seeded-fault configs; "
                  "per-collection reports of the real Immix spaces validated with TLC "
                  "(Trace_ImmixLines.tla)",
@@ -73,19 +72,19 @@ def matrix(tier):
         runs.append(_run("ConcurrentImmix", "base", 300, seed_off=3))
         return runs
     for i, p in enumerate(IMMIX_PLANS):
-        runs.append(_run(p, "long", 1000, tracked=12, seed_off=i))
-        runs.append(_run(p, "mid", 400, midgc=True, tracked=12, seed_off=10 + i))
-        runs.append(_run(p, "defrag", 400, heap=5, seed_off=20 + i,
+        runs.append(_run(p, "long", 800, tracked=12, seed_off=i))
+        runs.append(_run(p, "mid", 300, midgc=True, tracked=12, seed_off=10 + i))
+        runs.append(_run(p, "defrag", 300, heap=5, seed_off=20 + i,
                          opts="immix_always_defrag=true,immix_defrag_every_block=true"))
-        runs.append(_run(p, "headroom", 300, heap=5, seed_off=30 + i, midgc=True, tracked=10,
+        runs.append(_run(p, "headroom", 250, heap=5, seed_off=30 + i, midgc=True, tracked=10,
                          opts="immix_always_defrag=true,immix_defrag_headroom_percent=30"))
-        runs.append(_run(p, "stress", 300, heap=8, seed_off=40 + i, opts="stress_factor=262144"))
-        runs.append(_run(p, "sb", 400, feats=["immix_smaller_block"], seed_off=50 + i, midgc=True,
+        runs.append(_run(p, "stress", 250, heap=8, seed_off=40 + i, opts="stress_factor=262144"))
+        runs.append(_run(p, "sb", 300, feats=["immix_smaller_block"], seed_off=50 + i, midgc=True,
                          tracked=20))
-        runs.append(_run(p, "ixnm", 300, feats=["immix_non_moving"], seed_off=60 + i))
-        runs.append(_run(p, "rel", 500, release=True, seed_off=70 + i, workers=4))
-        runs.append(_run(p, "w1", 250, workers=1, seed_off=80 + i))
-    runs.append(_run("StickyImmix", "sxnm", 400, feats=["sticky_immix_non_moving_nursery"],
+        runs.append(_run(p, "ixnm", 250, feats=["immix_non_moving"], seed_off=60 + i))
+        runs.append(_run(p, "rel", 400, release=True, seed_off=70 + i, workers=4))
+        runs.append(_run(p, "w1", 200, workers=1, seed_off=80 + i))
+    runs.append(_run("StickyImmix", "sxnm", 300, feats=["sticky_immix_non_moving_nursery"],
                      seed_off=90, midgc=True, tracked=12))
     # the common non-moving space (an ImmixSpace) under plans whose own space is not Immix
     for i, p in enumerate(["SemiSpace", "MarkSweep", "GenCopy"]):
